@@ -114,6 +114,8 @@ def dmRose (a : Arena) (unit : Int) : QR (List String × List Int) := do
 /-- `Tree::distance_matrix_recursive`: true path lengths, refused when a branch lacks a length or leaf names
     are missing / duplicated -/
 def dmRecursive (a : Arena) : QR (List String × List Int) := do
+  -- an arena whose nodes were all removed has no leaves: the crate returns the empty matrix
+  if a.size ≠ 0 ∧ (getRoot a).isNone then .ok ([], []) else
   let t ← absRoot a
   let names := (tipsWithNames t).map (·.2)
   if names.any Option.isNone then .err "UnnamedLeaves" else
